@@ -124,6 +124,24 @@ class FaultyStream(ScriptedStream):
         return super().next_float()
 
 
+class AntitheticStream(MersenneTwister):
+    """A user stream derived from the library's class that transforms the numbers in
+    next_float (antithetic variates) ..."""
+
+    def next_float(self):
+        u = super().next_float()
+        return 1.0 - u if u > 0.0 else 0.0
+
+
+class NamedAntitheticStream(AntitheticStream):
+    """... and a further subclass that only adds a name: next_float is inherited from
+    the intermediate class."""
+
+    def __init__(self, seed, name="arrivals"):
+        super().__init__(seed)
+        self.name = name
+
+
 class ValueEqStream(ScriptedStream):
     """A stream type with value semantics (as a user RNG written as a dataclass
     has): two streams are equal when seed, script and position agree."""
@@ -405,6 +423,19 @@ def run_cell(name, params, plan, seed=7, n_draws=4):
                     "%d uniforms, the new stream from %d to %d); a never-copied twin draws %s"
                     % (name, params, "the copy" if repoint_copy else "the original", a,
                        s0.calls, used_new, snew.calls, b)), info
+    # user stream classes derived from the library's class, one and two levels deep,
+    # deliver the same numbers: the draws must be the same
+    try:
+        d1 = build(name, params, AntitheticStream(seed))
+        d2 = build(name, params, NamedAntitheticStream(seed))
+        v1 = [d1.draw() for _ in range(3)]
+        v2 = [d2.draw() for _ in range(3)]
+    except Exception:
+        v1 = v2 = None
+    if v1 != v2:
+        return ("twin-differs", "Dist%s(%s) on two user streams that deliver identical numbers "
+                "(a MersenneTwister subclass overriding next_float, and a subclass of that "
+                "subclass) drew %s and %s" % (name, params, v1, v2)), info
     # deep copies and pickle round trips on the library's own plain stream class:
     # copy and original are two independent continuations of one history
     import pickle
